@@ -8,6 +8,7 @@ import MemVerif.Model.ExcSafe
 import MemVerif.Model.Joint
 import MemVerif.Model.Compose
 import MemVerif.Model.Temp
+import MemVerif.Model.Container
 /-!
 Line-protocol driver: reads one operation per line on stdin, runs the executable model, prints the
 model's result in the harness' canonical format. `tools/` diff the two streams.
@@ -151,6 +152,7 @@ structure DState where
   pool : PoolSt := {}
   expr : Option AExpr := none
   tsys : TSys := { threads := [] }
+  conts : List Cont := []
   fixes : Fixes := {}
 
 /-- one trace line in, the model's line out -/
@@ -163,6 +165,30 @@ def step (ds : DState) (line : String) : DState × String :=
       match arith fn args with
       | some r => (ds, s!"arith {" ".intercalate (fn :: args)} => {r}")
       | none => (ds, s!"bad-op {line}")
+  | ["ns", c, sz, al] =>
+      let r := stdNodeRequest c (nat! sz) (nat! al)
+      let k := (nodeSizeConst c (nat! sz) (nat! al)).getD 0
+      (ds, mkLine s!"ns {c} {sz} {al}" "" s!"req={r} const={k}" "" "-")
+  | "cteq" :: kind :: _ =>
+      -- typed handles: equal iff same allocator object; the type-erased `any` handle compares always equal (finding D23)
+      let diff := if kind = "any" then "1" else "0"
+      (ds, mkLine s!"cteq {kind} same=1 diff={diff}" "" "-" "" "-")
+  | ["ct", _kind, op, i, j] =>
+      let bindStr (cs : List Cont) : String := "bind=" ++ String.ofList (cs.map fun c => if c.alloc = 0 then 'A' else 'B')
+      let obs := secs.getD 4 ""
+      if op = "init" then
+        let cs : List Cont := [⟨0, []⟩, ⟨1, []⟩, ⟨0, []⟩, ⟨1, []⟩]
+        ({ ds with conts := cs }, mkLine (secs.getD 0 "") "" (bindStr cs) "" obs)
+      else
+        let cop : Option COp :=
+          if op = "insert" then some (.insert (nat! i)) else if op = "erase" then some (.erase (nat! i))
+          else if op = "clear" then some (.clear (nat! i)) else if op = "copy_assign" then some (.copyAssign (nat! i) (nat! j))
+          else if op = "move_assign" then some (.moveAssign (nat! i) (nat! j)) else if op = "swap" then some (.swap (nat! i) (nat! j))
+          else if op = "copy_ctor" then some (.copyCtor (nat! i) (nat! j)) else if op = "move_ctor" then some (.moveCtor (nat! i) (nat! j))
+          else if op = "splice" then some (.splice (nat! i) (nat! j)) else none
+        match cop.bind (cstep {} ds.conts) with
+        | some cs => ({ ds with conts := cs }, mkLine (secs.getD 0 "") "" (bindStr cs) "" obs)
+        | none => (ds, mkLine (secs.getD 0 "") "" "precondition-violated" "" obs)
   | "tmt" :: "scripts" :: rest =>
       let parts := (" ".intercalate rest).splitOn ";"
       let scripts := parts.map fun p => (toks p).filterMap fun a =>
